@@ -1,5 +1,5 @@
 (* Extraction of the executable model for the correspondence check.
-   ExtrOcamlBasic only: bool, option, unit, list, prod, sumbool, comparison map
+   ExtrOcamlBasic only: bool, option, unit, list, prod, sumbool, sumor (and andb, orb) map
    to OCaml natives; nat, N, Z, positive stay extracted inductives. *)
 Require Import Extraction ExtrOcamlBasic.
 From Xeh Require Import Model.Prelude Model.Bits Model.Codec Model.Store Model.Cell Model.Lexer Model.Fmt Model.Vm Model.Words Model.Build Model.Struct Model.Boot Model.F64c Model.F64.
